@@ -106,7 +106,7 @@ def tlc(specdir, module, cfg=None, workers="auto", timeout=900, simulate=None, d
             m = re.match(r"Error: Invariant (\S+) is violated", line)
             if m:
                 res["violated"] = m.group(1)
-            elif re.match(r"Error: Action property .* is violated|Error: Temporal properties were violated", line):
+            elif re.match(r"Error: Action property .* is violated|Error: Temporal propert(y|ies) .*(was|were) violated", line):
                 res["violated"] = "temporal-or-action-property"
             elif line.startswith("Error: The behavior up to this point") or line.startswith("Error: The following behavior"):
                 pass
